@@ -195,6 +195,13 @@ contract(OM + "_estimate_required_balances", props=["C06", "C07"], returns="Valu
                    ("new", "forall(lambda s=Str: not (s in order._balance_updates)) and forall(lambda s=Str: not (s in order._fees))")],
          ensures=[("fresh", "fresh(result)"),
                   ("nonneg", "forall(lambda s=Str: at(result, s) >= 0 and implies(s in result, at(result, s) > 0))"),
+                  # stated per symbol first (base / quote / any other), each a small query; the quantified form follows
+                  ("reservation_base", "implies(known_order(order) and known_fees(self._ctx.fee_strategy) and grid(order._amount, bp_of(self, order)), "
+                                       "at(result, ob(order)) == req_of(self, order, ob(order)))"),
+                  ("reservation_quote", "implies(known_order(order) and known_fees(self._ctx.fee_strategy) and grid(order._amount, bp_of(self, order)), "
+                                        "at(result, oq(order)) == req_of(self, order, oq(order)))"),
+                  ("reservation_others", "implies(known_order(order) and known_fees(self._ctx.fee_strategy) and grid(order._amount, bp_of(self, order)), "
+                                         "forall(lambda s=Str: implies(s != ob(order) and s != oq(order), at(result, s) == 0)))"),
                   ("reservation", "implies(known_order(order) and known_fees(self._ctx.fee_strategy) and grid(order._amount, bp_of(self, order)), "
                                   "forall(lambda s=Str: at(result, s) == req_of(self, order, s)))")])
 
@@ -308,7 +315,7 @@ PO_INV = [("order_wf", "order_wf(order)"),
           ("inv_holds_gap", "holds_gap_same(self)"),
           ("inv_holds_sum", "om_holds_sum(self)")]
 OM_INVS = [x for x in PO_INV if x[0].startswith("inv_") and x[0] not in ("inv_holds_maps", "inv_holds_gap")]
-contract(OM + "_process_order", props=P + ["C04", "C11"],
+contract(OM + "_process_order", props=P + ["C04", "C11", "C03"],
          types={"liquidity_strategy": "LiquidityStrategy"},
          requires=PO_REQ,
          axioms=[("bound", "ax_hold_bound(self, order._id)"), ("step", "ax_hold_step(self, order._id)")],
@@ -355,7 +362,7 @@ specfun("om_state_unchanged", ["m"],
         "and lm_state_unchanged(om_lm(m)) "
         "and forall(lambda k=Id: implies(k in om_lm(m)._loans._items, om_lm(m)._loans._items[k]._is_open == old(om_lm(m)._loans._items[k]._is_open)))")
 
-contract(OM + "add_order", props=P + ["C10"],
+contract(OM + "add_order", props=P + ["C10", "C03"],
          axioms=[("step", "ax_hold_step(self, order._id)")],
          requires=OM_REQ + [
              ("new_order", "order_wf(order) and st_open(order) and wf_config(om_cfg(self), order._pair) and order_grid(self, order) "
@@ -365,6 +372,8 @@ contract(OM + "add_order", props=P + ["C10"],
              ("clock", "implies(order._auto_borrow, clock_ok(om_lm(self)))")],
          ensures=OM_INVS + [
              ("registered", "in_orders(self, order) and st_open(order)"),
+             # C03: submitting an order never fills it -- fills only come from later bars
+             ("not_filled_on_submit", "seq_len(order._fills) == old(seq_len(order._fills)) and filled(order) == old(filled(order))"),
              # C06: the order reserves what it may spend; without borrowing it is accepted exactly when the available funds cover it
              ("hold", "forall(lambda s=Str: at(om_acc(self).holds, s) == old(at(om_acc(self).holds, s)) + "
                       "(at(oh_of(self, order), s) if (order._id in self._holds_by_order) else 0))"),
